@@ -283,6 +283,51 @@ def deep_case(c, proto):
             "depth": c["depth"], "huge": c["huge"]}
 
 
+def form_case(c, proto, wrapped):
+    setup = proto["setupA"] + str(c["d"]) + proto["setupB"]
+    # the set-up and the probe run in their own units: the form under test is the whole unit
+    steps = [{"src": setup, "class": "ok"}, {"src": c["wrapped"] if wrapped else c["src"], "class": "noncrash"},
+             {"src": proto["probe"], "class": "ok", "emit": c["probe"]}]
+    return {"id": ("fw-" if wrapped else "f-") + sha(c["src"], 14), "fresh": False,
+            "tag": f"form|{'wrapped' if wrapped else 'top'}|{c['head']}|{len(c['ops'])}", "steps": steps}
+
+
+def part_forms(r, work, table_path, quick, rnd):
+    """(2b) special forms x operand shapes (Robust.tla MODE "forms"): parser / expander / compiler are total
+    and terminate; a rejected form leaves the engine as it was"""
+    res = tlc("MC_Robust_forms.cfg", work, table_path, workers=4, timeout=300)
+    r.add_tlc(res)
+    proto = next(c for c in res["cases"] if c["k"] == "proto")
+    recs, seen = [], set()
+    for c in res["cases"]:
+        if c["k"] == "form" and c["src"] not in seen:
+            seen.add(c["src"])
+            recs.append(c)
+    if quick:
+        # all forms with <= 1 operand and a seeded fifth of the rest
+        small = [c for c in recs if len(c["ops"]) <= 1]
+        rest = [c for c in recs if len(c["ops"]) > 1]
+        recs = small + rnd.sample(rest, len(rest) // 5)
+    recs.sort(key=lambda c: c["src"])
+    wcases = [form_case(c, proto, True) for c in recs]
+    wv = replay_robust(wcases, work, "c07fw", timeout_ms=10000)
+    account(r, wcases, wv, "forms (compiled, not run)")
+    hung = {c["steps"][1]["src"] for c, v in zip(wcases, wv) if not v["pass"] and "hang" in v["why"]}
+    tcases = [form_case(c, proto, False) for c in recs]
+    tv = replay_robust(tcases, work, "c07f", timeout_ms=10000)
+    loops = 0
+    tv2 = []
+    for c, v in zip(tcases, tv):
+        src = c["steps"][1]["src"]
+        if not v["pass"] and v["why"].startswith("process hang") and f"(define (r07w@@) {src})" not in hung:
+            # accepted, compiled in bounded time, and does not terminate when it RUNS: not judged
+            loops += 1
+            v = dict(v, **{"pass": True, "why": "run-time non-termination of an accepted form (not judged)"})
+        tv2.append(v)
+    account(r, tcases, tv2, "forms (top level)")
+    r.notes.append(f"forms: {len(seen)} generated, {len(recs)} replayed twice (compiled only / top level); {loops} accepted forms loop at run time (not judged)")
+
+
 # ----------------------------------------------------------------------------- the check
 
 SEED = [1]
@@ -481,6 +526,7 @@ def run(tier, seed):
     r.notes.append("builtin table: " + json.dumps(stats))
 
     part_stages(r, work, table_path, quick, rnd, seed)      # (2), and the self-test
+    part_forms(r, work, table_path, quick, rnd)             # (2b)
     part_deep(r, work, table_path, quick)                   # (3)
     part_matrix(r, work, table, table_path, quick, rnd)     # (1)
 
